@@ -245,3 +245,215 @@ Proof.
     eapply memZ_resolved; [exact Hsorted| |exact HC|exact Ecs|exact Hp'].
     eapply Forall_impl; [|exact Hro]. cbn. intros; lia.
 Qed.
+
+(* ================================================================== *)
+(* Generalisation: the tensor's list is a run of in-place quantizations followed
+   by ONE insertion — [QUANTIZE_TENSOR p; ADD_DEQUANTIZE p for the graph output]
+   (every output of a full-integer model), [QUANTIZE_TENSOR p1; ADD_QUANTIZE p2]
+   (requantization), [QUANTIZE_TENSOR p; ADD_DEQUANTIZE p for the float readers]
+   (quantized producer, partly float consumers). *)
+
+Lemma quantize_tensor_buf_at bufs g tid ps bufs' g' :
+  0 <= tid -> quantize_tensor bufs g tid ps = Ok (bufs', g') ->
+  forall x y', tensor_at g' x = Some y' -> exists y, tensor_at g x = Some y /\ t_buf y' = t_buf y.
+Proof.
+  intros Ht H x y' Hy'.
+  destruct (Z.eq_dec x tid) as [->|Hne].
+  - unfold quantize_tensor in H.
+    destruct (get_tensor g tid) as [t0|] eqn:Et; cbn [bind] in H; [|discriminate].
+    unfold get_tensor in Et. destruct (py_index_nonneg _ _ _ Ht Et) as [Hn Hlt].
+    replace (if tid <? 0 then tid + lenZ (sg_tensors g) else tid) with tid in H
+      by (destruct (Z.ltb_spec tid 0); [lia|reflexivity]).
+    assert (Hy : tensor_at g tid = Some t0).
+    { unfold tensor_at, nthZ. destruct (Z.ltb_spec tid 0); [lia|exact Hn]. }
+    destruct ps as [p|].
+    + match type of H with bind ?m _ = _ => destruct m as [b2|] end; cbn [bind] in H; [|discriminate].
+      match type of H with bind ?m _ = _ => destruct m as [t2|] eqn:Et2 end; cbn [bind] in H; [|discriminate].
+      inversion H; subst bufs' g'; clear H.
+      assert (E2 : tensor_at (set_tensor g tid t2) tid = Some t2).
+      { unfold tensor_at, nthZ, set_tensor. cbn [sg_tensors]. destruct (Z.ltb_spec tid 0); [lia|].
+        rewrite nth_opt_set_nth_any, Nat.eqb_refl, Hn. reflexivity. }
+      rewrite E2 in Hy'. inversion Hy'; subst y'. exists t0. split; [exact Hy|].
+      destruct (qp_uniform p).
+      * destruct (quant_params_to_tflite_type (qp_bits p)); cbn [bind] in Et2; [|discriminate]. inversion Et2; reflexivity.
+      * destruct (nonlinear_quant_params_to_tflite_type (qp_bits p)); cbn [bind] in Et2; [|discriminate]. inversion Et2; reflexivity.
+    + destruct (negb (t_buf t0 =? 0)); [discriminate|]. inversion H; subst. exists y'. split; [exact Hy'|reflexivity].
+  - rewrite (quantize_tensor_other _ _ _ _ _ _ Ht H x Hne) in Hy'. exists y'. split; [exact Hy'|reflexivity].
+Qed.
+
+Lemma apply_single_inplace_buf st k i later st' later' g :
+  i_trans i = Tr_QUANTIZE_TENSOR -> 0 <= i_tensor i ->
+  nth_opt (m_subgraphs (ps_model st)) k = Some g ->
+  apply_single st (Z.of_nat k) i later = Ok (st', later') ->
+  exists g', nth_opt (m_subgraphs (ps_model st')) k = Some g' /\
+    forall x y', tensor_at g' x = Some y' -> exists y, tensor_at g x = Some y /\ t_buf y' = t_buf y.
+Proof.
+  intros Htr Hit Hg H. assert (Hs : 0 <= Z.of_nat k) by lia. rewrite apply_single_unfold in H.
+  destruct (py_index (ps_orig st) (Z.of_nat k)) as [om|]; cbn [bind] in H; [|discriminate].
+  destruct (py_index (ps_added st) (Z.of_nat k)) as [am|]; cbn [bind] in H; [|discriminate].
+  destruct (py_index (m_subgraphs (ps_model st)) (Z.of_nat k)) as [g0|] eqn:Eg; cbn [bind] in H; [|discriminate].
+  destruct (resolve om am (i_producer i)) as [producer|]; cbn [bind] in H; [|discriminate].
+  destruct (mapM _ (i_consumers i)) as [cs|]; cbn [bind] in H; [|discriminate].
+  unfold trans_of in H. rewrite Htr in H.
+  destruct (quantize_tensor (m_buffers (ps_model st)) g0 (i_tensor i) (i_params i)) as [[b2 g2]|] eqn:Q;
+    cbn [bind fst snd] in H; [|discriminate].
+  cbn [to_added Z.eqb] in H. inversion H; subst st' later'. cbn [ps_model set_sg m_subgraphs].
+  apply (py_index_nonneg _ _ _ Hs) in Eg. destruct Eg as [Eg _]. rewrite Nat2Z.id, Hg in Eg. inversion Eg; subst g0.
+  exists g2. split; [rewrite Nat2Z.id; apply nth_opt_set_nth_same; eapply nth_opt_Some_lt; exact Hg|].
+  exact (quantize_tensor_buf_at _ _ _ _ _ _ Hit Q).
+Qed.
+
+(* a prefix of in-place steps on the list of subgraph k *)
+Lemma inplace_prefix m0 k : uids_ok m0 -> forall qs st tail rest fuel st2 g,
+  Forall (fun q => i_trans q = Tr_QUANTIZE_TENSOR /\ 0 <= i_tensor q) qs ->
+  ginv st (map (pair (Z.of_nat k)) (qs ++ tail) ++ rest) -> sinv m0 st ->
+  nth_opt (m_subgraphs (ps_model st)) k = Some g ->
+  apply_insts st (Z.of_nat k) (qs ++ tail) (length qs + fuel) = Ok st2 ->
+  exists stq gq, apply_insts stq (Z.of_nat k) tail fuel = Ok st2 /\
+    ginv stq (map (pair (Z.of_nat k)) tail ++ rest) /\ sinv m0 stq /\
+    nth_opt (m_subgraphs (ps_model stq)) k = Some gq /\ sg_ops gq = sg_ops g /\ ntens gq = ntens g /\
+    (forall x y', tensor_at gq x = Some y' -> exists y, tensor_at g x = Some y /\ t_buf y' = t_buf y).
+Proof.
+  intros Hu. induction qs as [|q qs IH]; intros st tail rest fuel st2 g Hqs HG HS Hg H.
+  - cbn [app length Nat.add] in *. exists st, g. split; [exact H|]. split; [exact HG|]. split; [exact HS|].
+    split; [exact Hg|]. split; [reflexivity|]. split; [reflexivity|]. intros x y' Hy. exists y'. split; [exact Hy|reflexivity].
+  - inversion Hqs as [|? ? [Hq Hqt] Hqs']; subst. cbn [app length Nat.add apply_insts] in H.
+    assert (Hins : is_insertion (i_trans q) = true) by (rewrite Hq; reflexivity). rewrite Hins in H.
+    destruct (apply_single st (Z.of_nat k) q (qs ++ tail)) as [[st1 later1]|] eqn:E; cbn [bind fst snd] in H; [|discriminate].
+    cbn [app map] in HG.
+    pose proof (apply_single_ginv _ _ _ _ _ _ _ HG E) as HG1.
+    pose proof (apply_single_sinv _ _ _ _ _ _ _ _ Hu HG HS E) as HS1.
+    destruct (apply_single_inplace st (Z.of_nat k) q (qs ++ tail) st1 later1 k g (Zle_0_nat k) Hq Hg E) as (-> & g1 & Hg1 & Hops1 & Hn1).
+    destruct (apply_single_inplace_buf _ _ _ _ _ _ _ Hq Hqt Hg E) as (g1' & Hg1' & Hb1).
+    rewrite Hg1 in Hg1'. inversion Hg1'; subst g1'.
+    destruct (IH st1 tail rest fuel st2 g1 Hqs' HG1 HS1 Hg1 H) as (stq & gq & A & B & C & D & E1 & E2 & E3).
+    exists stq, gq. split; [exact A|]. split; [exact B|]. split; [exact C|]. split; [exact D|].
+    split; [congruence|]. split; [congruence|].
+    intros x y' Hy'. destruct (E3 x y' Hy') as (y1 & Hy1 & Eb1). destruct (Hb1 x y1 Hy1) as (y & Hy & Eb).
+    exists y. split; [exact Hy|congruence].
+Qed.
+
+Theorem insertion_after_inplace_readers m0 pre ti0 post m' k g0 qs i0 :
+  Forall wf_sg (m_subgraphs m0) -> uids_ok m0 ->
+  (forall ti i, In ti (pre ++ ti0 :: post) -> In i (ti_insts ti) -> sane m0 (ti_sg ti) i) ->
+  ids_ok (pre ++ ti0 :: post) ->
+  nth_opt (m_subgraphs m0) k = Some g0 ->
+  ti_sg ti0 = Z.of_nat k -> ti_insts ti0 = qs ++ [i0] ->
+  Forall (fun q => i_trans q = Tr_QUANTIZE_TENSOR) qs ->
+  (i_trans i0 = Tr_ADD_QUANTIZE \/ i_trans i0 = Tr_ADD_DEQUANTIZE) ->
+  Forall (fun c => -1 <= c) (i_consumers i0) ->
+  never_names k (i_tensor i0) pre ->
+  (forall t0, tensor_at g0 (i_tensor i0) = Some t0 -> 0 <= t_buf t0) ->
+  transform_graph m0 (pre ++ ti0 :: post) = Ok m' ->
+  exists x' g' tn, nth_opt (m_subgraphs m') k = Some g' /\ ntens g0 <= x' /\
+                readers_profile x' g' = moved_profile (i_tensor i0) (i_consumers i0) g0 /\
+                tensor_at g' x' = Some tn /\
+                new_tensor_type (qtrans_eqb (i_trans i0) Tr_ADD_QUANTIZE) (i_params i0) tn.
+Proof.
+  intros Hwf Hu Hsane Hids Hg0 Hsg Hins Hqs Htr HC Hnn Hbuf0 H.
+  set (t := i_tensor i0) in *. set (C := i_consumers i0) in *.
+  unfold transform_graph in H.
+  match type of H with bind ?x _ = _ => destruct x as [st3|] eqn:E end; cbn [bind] in H; [|discriminate].
+  inversion H; subst m'; clear H.
+  fold (run_all (pre ++ ti0 :: post) (init_pstate m0)) in E. unfold run_all in E. rewrite foldM_app in E.
+  fold (run_all pre (init_pstate m0)) in E.
+  destruct (run_all pre (init_pstate m0)) as [st0|] eqn:E1; cbn [bind] in E; [|discriminate].
+  cbn [foldM] in E. rewrite Hsg, Hins in E.
+  destruct (apply_insts st0 (Z.of_nat k) (qs ++ [i0]) (length (qs ++ [i0]))) as [st2|] eqn:E2; cbn [bind] in E; [|discriminate].
+  fold (run_all post st2) in E.
+  (* invariants after [pre] *)
+  pose proof (init_ginv m0 _ Hwf Hsane) as HG0. rewrite pend_of_app in HG0.
+  destruct (run_both_rest m0 Hu pre _ _ _ HG0 (init_sinv _ Hu) E1) as [HGp HSp].
+  destruct (ids_ok_app _ _ Hids) as [Hids_pre Hids2]. inversion Hids2 as [|? ? [_ Hids_ti0] Hids_post]; subst.
+  rewrite Hins in Hids_ti0.
+  assert (Hk0 : (k < length (m_subgraphs (ps_model st0)))%nat) by (destruct HSp as [SL _]; rewrite SL; eapply nth_opt_Some_lt; exact Hg0).
+  destruct (nth_opt_lt_Some (m_subgraphs (ps_model st0)) k Hk0) as [gp Hgp].
+  (* the in-place prefix *)
+  assert (Hqs2 : Forall (fun q => i_trans q = Tr_QUANTIZE_TENSOR /\ 0 <= i_tensor q) qs).
+  { apply Forall_forall. intros q Hq. rewrite Forall_forall in Hqs, Hids_ti0. split; [apply Hqs; exact Hq|].
+    apply Hids_ti0. apply in_app_iff. left. exact Hq. }
+  cbn [pend_of flat_map] in HGp. rewrite Hsg, Hins in HGp.
+  rewrite app_length in E2. cbn [length] in E2.
+  destruct (inplace_prefix m0 k Hu qs st0 [i0] (pend_of post) 1 st2 gp Hqs2 HGp HSp Hgp E2)
+    as (st & g & EA & HG & [SL SK] & Hg & Hopsq & Hnq & Hbq).
+  (* the insertion step *)
+  cbn [apply_insts] in EA.
+  assert (Hisins : is_insertion (i_trans i0) = true) by (destruct Htr as [-> | ->]; reflexivity).
+  rewrite Hisins in EA.
+  destruct (apply_single st (Z.of_nat k) i0 []) as [[st1 later1]|] eqn:ES; cbn [bind fst snd] in EA; [|discriminate].
+  pose proof (apply_single_nil _ _ _ _ _ ES) as ->. cbn [apply_insts] in EA. inversion EA; subst st2. clear EA.
+  pose proof HG as [Lo La Hm Hp].
+  assert (Hk : (k < length (m_subgraphs (ps_model st)))%nat) by (eapply nth_opt_Some_lt; exact Hg).
+  destruct (nth_opt_lt_Some (ps_orig st) k ltac:(lia)) as [om Ho].
+  destruct (nth_opt_lt_Some (ps_added st) k ltac:(lia)) as [am Ha].
+  pose proof (Hm _ _ _ _ Hg Ho Ha) as [Hwfg Hsorted Hro Hra].
+  pose proof (SK _ _ _ _ Hg0 Hg Ho) as [SKlen SKorig SKother SKtens _ _].
+  assert (Hpend : In (Z.of_nat k, i0) (map (pair (Z.of_nat k)) [i0] ++ pend_of post)) by (left; reflexivity).
+  destruct (Hp _ _ Hpend) as [_ Hiok]. rewrite Nat2Z.id in Hiok. destruct (Hiok _ _ _ Hg Ho Ha) as (Htr_rng & _).
+  assert (Ht0 : 0 <= t < ntens g0).
+  { assert (Hin0 : In ti0 (pre ++ ti0 :: post)) by (apply in_app_iff; right; left; reflexivity).
+    assert (Hi0 : In i0 (ti_insts ti0)) by (rewrite Hins; apply in_app_iff; right; left; reflexivity).
+    destruct (Hsane ti0 i0 Hin0 Hi0) as [_ Hs2]. rewrite Hsg, Nat2Z.id in Hs2. destruct (Hs2 _ Hg0) as (R & _). exact R. }
+  (* readers of t: unchanged by [pre] (never named) and by the in-place prefix (same operators) *)
+  destruct (run_all_profile k t pre (init_pstate m0) st0 g0 Hids_pre Hnn Hg0 Ht0 E1) as (g_ & Hg_ & Ptp & _).
+  rewrite Hgp in Hg_. inversion Hg_; subst g_.
+  assert (Pt : readers_profile t g = readers_profile t g0) by (rewrite <- Ptp; unfold readers_profile; rewrite Hopsq; reflexivity).
+  pose proof ES as ES'. rewrite apply_single_unfold in ES'.
+  rewrite (py_index_of_nat _ _ _ Ho) in ES'. cbn [bind] in ES'.
+  rewrite (py_index_of_nat _ _ _ Ha) in ES'. cbn [bind] in ES'.
+  rewrite (py_index_of_nat _ _ _ Hg) in ES'. cbn [bind] in ES'.
+  destruct (resolve om am (i_producer i0)); cbn [bind] in ES'; [|discriminate].
+  destruct (mapM (fun c => if Z.eqb c (-1) then Ok (-1) else py_index om c) (i_consumers i0)) as [cs|] eqn:Ecs;
+    cbn [bind] in ES'; [|discriminate]. clear ES'.
+  assert (Hcsr : Forall (fun c => c = -1 \/ 0 <= c) cs).
+  { eapply Forall_impl; [|exact (mapM_consumers _ _ _ Ecs)]. cbn. intros c [->|Hc]; [left; reflexivity|right].
+    rewrite Forall_forall in Hro. specialize (Hro _ Hc). lia. }
+  assert (Hfresh : forall o, In o (sg_ops g) -> ~ In (ntens g) (o_ins o)).
+  { intros o Ho' Hin. destruct (In_nth_opt _ _ Ho') as (kk & Hkk).
+    destruct (wf_ins g Hwfg kk o (ntens g) Hkk Hin) as [E0|E0]; unfold ntens, lenZ in *; lia. }
+  assert (Hnn_post : never_names k (ntens g) post).
+  { intros ti i Hti Hsgi Hi _ Heq.
+    assert (Hin : In ti (pre ++ ti0 :: post)) by (apply in_app_iff; right; right; exact Hti).
+    destruct (Hsane ti i Hin Hi) as [_ Hs2]. rewrite Hsgi, Nat2Z.id in Hs2. destruct (Hs2 _ Hg0) as (R & _).
+    destruct SKtens as [T _]. lia. }
+  destruct (inserted_tensor_readers k st i0 [] st1 [] 0 st1 post st3 g om cs Hg Htr Htr_rng Hfresh
+              (py_index_of_nat _ _ _ Ho) Ecs Hcsr ES (Forall_nil _) (Forall_nil _) eq_refl Hids_post Hnn_post E)
+    as (g3 & Hg3 & P3).
+  (* the buffer of t: as in the input model *)
+  destruct (run_all_untouched k t pre (init_pstate m0) st0 g0 Hids_pre Hnn Hg0 Ht0 E1) as (g_u & Hg_u & Tt & _).
+  rewrite Hgp in Hg_u. inversion Hg_u; subst g_u.
+  assert (Hbuf : forall t0, tensor_at g t = Some t0 -> 0 <= t_buf t0).
+  { intros t0 Ht0'. destruct (Hbq _ _ Ht0') as (y & Hy & Eb). rewrite Eb. apply Hbuf0. rewrite <- Tt. exact Hy. }
+  destruct (inserted_tensor_typed k st i0 [] st1 [] 0 st1 post st3 g Hg Htr Htr_rng Hbuf ES
+              (Forall_nil _) (Forall_nil _) eq_refl Hids_post Hnn_post E) as (g3' & tn & Hg3' & Ttn & Ttype).
+  rewrite Hg3 in Hg3'. inversion Hg3'; subst g3'.
+  exists (ntens g), g3, tn. split; [exact Hg3|]. split; [destruct SKtens as [T _]; exact T|].
+  split; [|split; [exact Ttn|exact Ttype]].
+  rewrite P3. unfold moved_profile.
+  assert (Horig0 : forall o, In o (sg_ops g0) -> is_original o = true).
+  { intros o Ho'. unfold uids_ok in Hu. rewrite Forall_forall in Hu. specialize (Hu _ (nth_opt_In _ _ _ Hg0)).
+    rewrite Forall_forall in Hu. specialize (Hu _ Ho'). unfold is_original. destruct (Z.eqb_spec (o_uid o) UID_INSERTED); [contradiction|reflexivity]. }
+  rewrite (filter_all (fun ko : Z * op => is_original (snd ko)) (enumerate (sg_ops g0))).
+  2:{ intros [j o] Hjo. cbn [snd]. apply Horig0. unfold enumerate in Hjo.
+      destruct (in_enum_all' _ _ _ _ Hjo) as (jj & _ & Hn). eapply nth_opt_In; exact Hn. }
+  set (L := filter (fun ko : Z * op => is_original (snd ko)) (enumerate (sg_ops g))).
+  assert (HLfst : map fst L = om).
+  { unfold L, enumerate. apply filter_enum_sorted; [exact Hsorted|]. intros p. split.
+    - intros Hp'. destruct (In_nth_opt _ _ Hp') as (j & Hj).
+      assert (Hjl : (j < length (sg_ops g0))%nat) by (rewrite <- SKlen; eapply nth_opt_Some_lt; exact Hj).
+      destruct (nth_opt_lt_Some _ _ Hjl) as [o0 Ho0].
+      destruct (SKorig _ _ _ Ho0 Hj) as (Hp0 & o & Hat & _ & Huid & _).
+      exists (Z.to_nat p), o. split; [lia|]. split; [exact Hat|].
+      unfold is_original. rewrite Huid. apply Horig0. eapply nth_opt_In; exact Ho0.
+    - intros (kk & o & -> & Hn & Po). destruct (SKother kk o Hn) as [Hin|[Hui _]]; [rewrite Z.add_0_l; exact Hin|].
+      unfold is_original in Po. rewrite Hui in Po. discriminate. }
+  apply moved_transfer.
+  - rewrite <- (map_map snd (slots t)). unfold L, enumerate. rewrite filter_enum_snd.
+    change (map (slots t) (filter is_original (sg_ops g))) with (readers_profile t g). rewrite Pt.
+    unfold readers_profile. rewrite (filter_all is_original _ Horig0). reflexivity.
+  - intros idx p o Hn. rewrite Z.add_0_l.
+    assert (Hp' : nth_opt om idx = Some p).
+    { rewrite <- HLfst. rewrite nth_opt_map. rewrite Hn. reflexivity. }
+    eapply memZ_resolved; [exact Hsorted| |exact HC|exact Ecs|exact Hp'].
+    eapply Forall_impl; [|exact Hro]. cbn. intros; lia.
+Qed.
